@@ -113,7 +113,10 @@ def run_case(case):
             if op in ("rebase", "cherry", "squash", "merge"):
                 # clean tree needed
                 sc.commit_all("pre")
-                out = {"rebase": sc.op_rebase, "cherry": sc.op_cherry_pick, "squash": sc.op_squash_merge, "merge": sc.op_merge}[op]()
+                if op == "rebase" and rng.random() < 0.15:
+                    out = sc.op_rebase_delete_recreate()
+                else:
+                    out = {"rebase": sc.op_rebase, "cherry": sc.op_cherry_pick, "squash": sc.op_squash_merge, "merge": sc.op_merge}[op]()
             elif op == "noop":
                 if rng.random() < 0.6:
                     sc.do_edit()   # pending AI/human work that must stay exactly as it is
